@@ -100,6 +100,9 @@ def policyStep (o : Ops α) (pow : α → α → α) (P : Params α) (t : Nat) (
 
 /-! ## sequences of epochs at one information set, one action
 
+`Profile::add_regret(bucket, regrets)` and `Profile::add_policy(bucket, policy)` update every
+action named by the vector independently (`for (action, &regret) in regrets.inner()`), so one
+information set is a family of scalar sequences, one per action.
 `regretAcc … t0 prior r k` is the stored regret after `k` epochs, the counter having started at
 `t0` with stored value `prior`, when the vector added in the `j`-th of these epochs has the
 entry `r j` (so that epoch uses the counter value `t0 + j`).  Likewise `policyAcc`. -/
@@ -117,26 +120,7 @@ def counterAfter (t0 : Nat) : Nat → Nat
   | 0 => t0
   | k + 1 => next (counterAfter t0 k)
 
-/-! ## whole information set: `BTreeMap<Edge, Memory>` as a list in key order -/
-
-structure Memory (α : Type) where
-  regret : α
-  policy : α
-  deriving Repr
-
-/-- `Profile::add_regret(bucket, regrets)` followed by `Profile::add_policy(bucket, policy)` and
-    `Profile::next()`: one epoch of `Blueprint::solve` at one bucket visited once. The vectors are
-    aligned with the stored actions (same keys). -/
-def epoch (o : Ops α) (pow : α → α → α) (P : Params α) (st : Nat × List (Memory α))
-    (upd : List (α × α)) : Nat × List (Memory α) :=
-  (next st.1,
-   List.zipWith (fun m (u : α × α) =>
-      { regret := regretStep o pow P st.1 m.regret u.1,
-        policy := policyStep o pow P st.1 m.policy u.2 }) st.2 upd)
-
-def run (o : Ops α) (pow : α → α → α) (P : Params α) (st : Nat × List (Memory α))
-    (steps : List (List (α × α))) : Nat × List (Memory α) :=
-  steps.foldl (epoch o pow P) st
+/-! ## normalisation -/
 
 /-- `Strategy::weight(edge)`: `policy(edge) / Σ policy` -/
 def weight (o : Ops α) (policies : List α) (x : α) : α := o.div x (o.sum policies)
